@@ -387,3 +387,88 @@ def b_note_sets(tier, rnd):
     return {"rule": "all subsets of size <= 2 (thorough: 3) of the 21 names with <= 1 accidental; every scale's own "
                     "ascending/descending note set, each minus one note and plus one foreign note (15 key pairs x 7 "
                     "classes); seeded random sets of 3-6 names with <= 2 accidentals", "cases": cases}
+
+
+NUMBERS = [0, 1, 2, 3, 4, 5, 6, 7, 8, 12, 16, 24, 32, 63, 64, 65, 128, 256, 1024, 2 ** 40, 2 ** 40 + 1, 2 ** 2000,
+           2 ** 2000 + 2, 3 * 2 ** 70, -1, -2, -4, -8, -3,
+           0.5, 0.25, 1.0, 2.0, 4.0, 8.0, 3.5, 1.5, 2.5, 6.0, 0.1, -0.5, -4.0, 1e300, 1e-300, float("inf"),
+           float("-inf"), float("nan"), 4.000001, 3.999999, 16.0, 2.0 ** 60, True, False]
+
+
+@battery("numbers")
+def b_numbers(tier, rnd):
+    return {"rule": "ints incl. powers of two up to 2^2000 and neighbours, negatives, zero; floats incl. fractions, "
+                    "inf, nan, tiny/huge, near-misses; bools", "cases": [(x,) for x in NUMBERS]}
+
+
+@battery("meters")
+def b_meters(tier, rnd):
+    counts = list(range(-3, 14)) + [15, 18, 21, 100, 2 ** 70]
+    return {"rule": "counts -3..13 and a few larger x the 'numbers' battery as beat unit",
+            "cases": [((c, u),) for c in counts for u in NUMBERS]}
+
+
+VBASES = [0.25, 0.5, 1, 2, 4, 8, 16, 32, 64, 128]
+
+
+def _vocab():
+    from mingus.core import value as V
+    out = []
+    for b in VBASES:
+        for n in range(5):
+            out.append(V.dots(b, n))
+        out += [V.triplet(b), V.quintuplet(b), V.septuplet(b)]
+    return out
+
+
+@battery("value_one")
+def b_value_one(tier, rnd):
+    return {"rule": "the constructed vocabulary (10 bases x dots 0..4, triplet, quintuplet, septuplet) + odd values",
+            "cases": [(v,) for v in _vocab() + [3, 5, 7, 0.1, 1000.0, 1e-9]]}
+
+
+@battery("value_flag")
+def b_value_flag(tier, rnd):
+    return {"rule": "vocabulary x {True, False}", "cases": [(v, f) for v in _vocab() for f in (True, False)]}
+
+
+@battery("value_ratio")
+def b_value_ratio(tier, rnd):
+    return {"rule": "10 bases x ratios a:b for a,b in 1..9", "cases":
+            [(v, a, b) for v in VBASES for a in range(1, 10) for b in range(1, 10)]}
+
+
+@battery("value_dots")
+def b_value_dots(tier, rnd):
+    return {"rule": "10 bases (+ triplets) x dots 0..4", "cases": [(v, n) for v in VBASES + [3, 6, 12] for n in range(5)]}
+
+
+@battery("value_pairs")
+def b_value_pairs(tier, rnd):
+    vs = _vocab()
+    return {"rule": "all ordered pairs of the constructed vocabulary", "cases": [(a, b) for a in vs for b in vs]}
+
+
+@battery("value_pairs_pos")
+def b_value_pairs_pos(tier, rnd):
+    return b_value_pairs(tier, rnd)
+
+
+@battery("value_near")
+def b_value_near(tier, rnd):
+    cases = []
+    for b in VBASES:
+        for x in (b, b / 1.5):
+            for f in (0.99, 0.9901, 0.995, 0.999, 1.0, 1.001, 1.005, 1.0099, 1.01):
+                cases.append((x * f,))
+    return {"rule": "undotted and single-dotted values x 9 perturbation factors within +-1%", "cases": cases}
+
+
+@battery("base_dots")
+def b_base_dots(tier, rnd):
+    return {"rule": "10 bases x dots 0..4", "exhaustive_upto": 50, "cases": [(b, n) for b in VBASES for n in range(5)]}
+
+
+@battery("base_kind")
+def b_base_kind(tier, rnd):
+    return {"rule": "10 bases x {3, 5, 7}", "exhaustive_upto": 30, "cases": [(b, k) for b in VBASES for k in (3, 5, 7)]}
